@@ -56,7 +56,10 @@ def describe_place(B, p, depth=0):
     s = base
     for e in p['p']:
         if e['k'] == 'field':
-            s = '%s.%s' % (s, e.get('name', e['i']))
+            if 'closure' in e and e['i'] in B.upvar_names:
+                s = B.upvar_names[e['i']]
+            else:
+                s = '%s.%s' % (s, e.get('name', e['i']))
         elif e['k'] == 'deref':
             pass
         elif e['k'] == 'downcast':
@@ -172,7 +175,11 @@ def sdesc_place(B, p, depth=0):
     s = sdesc_local(B, p['l'], depth)
     for e in p['p']:
         if e['k'] == 'field':
-            s = '%s.%s' % (s, e.get('name', e['i']))
+            if 'closure' in e and e['i'] in B.upvar_names:
+                un = B.upvar_names[e['i']]
+                s = 'upvar' + (un[un.index('.'):] if '.' in un else '<%s>' % _short_ty(e.get('ty', '')))
+            else:
+                s = '%s.%s' % (s, e.get('name', e['i']))
         elif e['k'] == 'downcast':
             s = '%s as %s' % (s, e['variant'])
         elif e['k'] == 'index':
@@ -338,14 +345,14 @@ def known_facts(B, bb):
         t = B.term(d)
         if t['k'] != 'switch' or t.get('discr_ty') != 'bool':
             continue
-        dl = op_local(t['discr'])
-        if dl is None:
+        if t['discr']['k'] not in ('copy', 'move'):
             continue
         false_t = [tb for v, tb in t['targets'] if v == '0']
-        true_t = t['otherwise']
+        one_t = [tb for v, tb in t['targets'] if v == '1']
+        true_t = one_t[0] if one_t else t['otherwise']
         if len(false_t) != 1 or false_t[0] == true_t:
             continue
-        desc = describe_local(B, dl)
+        desc = describe_operand(B, t['discr'])
         if B.dominates(true_t, bb) and B.preds[true_t] == [d] and not B.dominates(false_t[0], bb):
             out.append((desc, True))
         elif B.dominates(false_t[0], bb) and B.preds[false_t[0]] == [d] and not B.dominates(true_t, bb):
